@@ -25,11 +25,22 @@
 //                  a ramp: constant -> constant on output bins inside the input range, integral over the tangential coordinate
 //                  preserved for every unit row whose bin lies inside the output range (=> for all rows, by linearity, which is
 //                  checked on constant and ramp).
+//   what=coords with der=<mode> : the SAME clauses on a DERIVED object of that configuration, i.e. an object that was not constructed
+//                  with its sampling but obtained from an already USED object (warm-up queries build every lazily built table of the
+//                  base object): der=1 clone() + set_num_views (+ set_azimuthal_angle_offset, as SSRB does) / set_num_tangential_poss /
+//                  reduce_segment_range / set_tof_mash_factor; der=2 SSRB(base, 1, views to combine, tangential positions to trim,
+//                  max segment, TOF bins to combine); der=3 the setters on the used object itself; der=4 SSRB combining segments of
+//                  span-1 data.  The base sampling (bvm view mashing, bnt tangential positions, btm TOF mashing) is finer OR coarser
+//                  than the target.  Extra clause
+//      derived_as_fresh : a derived object that compares equal (operator==, both ways) to the freshly constructed object of the
+//                  configuration gives the same coordinates (tolerance), the same detector pairs for every bin and the same bin
+//                  for EVERY detector pair (exactly).
 #include "ref_pdi.h"
 #include "ref_coords.h"
 #include "stir/LORCoordinates.h"
 #include "stir/ArcCorrection.h"
 #include "stir/Sinogram.h"
+#include "stir/SSRB.h"
 #include <algorithm>
 #include <array>
 #include <typeinfo>
@@ -44,13 +55,40 @@ static const double EPSF = 1.2e-7;
 // private directory of this process for the crystal-map files (the shards of one run share ctx.tmpdir)
 static std::string g_tmp;
 
+// how a DERIVED object is obtained (mode 0: freshly constructed).  Case-string keys der, bvm, bnt, btm, warm.
+struct Der
+{
+  int mode = 0; // 1 clone + setters, 2 SSRB (views / tangential positions / segment range / TOF bins), 3 setters on the used object itself, 4 SSRB combining segments
+  int bvm = 1;  // view mashing factor of the base object
+  int bnt = 0;  // number of tangential positions of the base object (0: the scanner's default = maximum)
+  int btm = 0;  // TOF mashing factor of the base object (0: non-TOF)
+  int warm = 1; // 1: the base object is used (all kinds of queries) before the derivation
+  const char* name() const
+  {
+    switch (mode) { case 1: return "clone_setters"; case 2: return "ssrb"; case 3: return "inplace_setters"; case 4: return "ssrb_segments"; default: return "none"; }
+  }
+  std::string str() const
+  {
+    return ";der=" + std::to_string(mode) + ";bvm=" + std::to_string(bvm) + ";bnt=" + std::to_string(bnt) + ";btm=" + std::to_string(btm) + ";warm=" + std::to_string(warm);
+  }
+  static Der parse(const std::string& s)
+  {
+    auto m = vmc::kv(s);
+    Der d;
+    auto gi = [&](const char* k, int dflt) { auto it = m.find(k); return it == m.end() ? dflt : atoi(it->second.c_str()); };
+    d.mode = gi("der", 0); d.bvm = gi("bvm", 1); d.bnt = gi("bnt", 0); d.btm = gi("btm", 0); d.warm = gi("warm", 1);
+    return d;
+  }
+};
+
 struct Run
 {
   vmc::Ctx& ctx;
   Cfg c;
+  Der d;
   std::string cs, keybase;
   int nviol = 0;
-  Run(vmc::Ctx& x, const std::string& s) : ctx(x), c(Cfg::parse(s)), cs(s) {}
+  Run(vmc::Ctx& x, const std::string& s) : ctx(x), c(Cfg::parse(s)), d(Der::parse(s)), cs(s) { c.hist = 0; }
   bool too_many() const { return nviol > 40; }
   void viol(const std::string& clause, const std::string& what, const std::string& msg)
   {
@@ -66,6 +104,7 @@ struct Geo
 {
   shared_ptr<Scanner> sc;
   shared_ptr<ProjDataInfo> pdi;
+  shared_ptr<ProjDataInfo> fresh; // derived configurations: the freshly constructed object of the same configuration
   const ProjDataInfoCylindrical* cyl = nullptr;
   const ProjDataInfoCylindricalNoArcCorr* na = nullptr;
   const ProjDataInfoCylindricalArcCorr* ac = nullptr;
@@ -124,6 +163,87 @@ static void ring_set_info(const ProjDataInfoCylindrical& p, int seg, int ax, boo
   sym_range = expected > 0 && 2 * sum == (long)expected * (mn + mx);
 }
 
+// ------------------------------------------------------------------------------------------------ derived objects
+// use an object: one query of every kind, so that every lazily built table exists (errors, e.g. coordinates of compressed generic data, ignored)
+static void warm_up(const ProjDataInfo& p, const Scanner& sc)
+{
+  const int D = sc.get_num_detectors_per_ring();
+  const Bin b(0, 0, p.get_min_axial_pos_num(0), 0, 0, 1.F);
+  auto quietly = [](auto&& f) { try { f(); } catch (...) {} };
+  quietly([&] { (void)p.get_s(b); (void)p.get_m(b); (void)p.get_tantheta(b); (void)p.get_phi(b); (void)p.get_k(b); (void)p.get_sampling_in_m(b); });
+  quietly([&] { SinoLOR lor; p.get_LOR(lor, b); (void)p.get_bin(lor, 0.); });
+  quietly([&] { SinoLOR lor; p.get_LOR(lor, b); LORAs2Points<float> l2; if (lor.get_intersections_with_cylinder(l2, lor.radius()) == Succeeded::yes) (void)p.get_bin(l2, 0.); });
+  const DPP dp(DetectionPosition<>(0, 0, 0), DetectionPosition<>(D / 2, 0, 0));
+  std::vector<DPP> v;
+  Bin nb;
+  CartesianCoordinate3D<float> c1, c2;
+  if (auto* cyl = dynamic_cast<const ProjDataInfoCylindrical*>(&p))
+    {
+      quietly([&] { (void)cyl->get_all_ring_pairs_for_segment_axial_pos_num(0, p.get_min_axial_pos_num(0)); });
+      quietly([&] { int s = 0, a = 0; (void)cyl->get_segment_axial_pos_num_for_ring_pair(s, a, 0, 0); });
+    }
+  if (auto* na = dynamic_cast<const ProjDataInfoCylindricalNoArcCorr*>(&p))
+    {
+      quietly([&] { (void)na->get_bin_for_det_pos_pair(nb, dp); });
+      quietly([&] { na->get_all_det_pos_pairs_for_bin(v, b, true); });
+      quietly([&] { na->find_cartesian_coordinates_of_detection(c1, c2, b); });
+    }
+  if (auto* ge = dynamic_cast<const ProjDataInfoGenericNoArcCorr*>(&p))
+    {
+      quietly([&] { (void)ge->get_bin_for_det_pos_pair(nb, dp); });
+      quietly([&] { ge->get_all_det_pos_pairs_for_bin(v, b); });
+      quietly([&] { ge->find_cartesian_coordinates_of_detection(c1, c2, b); });
+    }
+}
+
+// the object of configuration c, obtained from a used object of another sampling.  Throws when STIR (or the derivation) rejects it.
+static shared_ptr<ProjDataInfo> make_derived(const Cfg& c, const Der& d, const shared_ptr<Scanner>& sc)
+{
+  const int D = sc->get_num_detectors_per_ring();
+  if (c.vm < 1 || d.bvm < 1 || (D / 2) % c.vm != 0 || (D / 2) % d.bvm != 0) throw std::runtime_error("harness: view mashing factor does not divide D/2");
+  const int views = D / 2 / c.vm;
+  const int nt = c.nt > 0 ? c.nt : (c.arc ? sc->get_default_num_arccorrected_bins() : sc->get_max_num_non_arccorrected_bins());
+  Cfg b = c;
+  b.hist = 0; b.vm = d.bvm; b.nt = d.bnt; b.tm = c.tm > 0 ? std::max(1, d.btm) : 0; b.sr = 0; b.smin = b.smax = 0;
+  if (d.mode == 4) { b.span = 1; b.ge = 0; }
+  shared_ptr<ProjDataInfo> base = rpdi::make_pdi(b, sc);
+  if (d.warm) warm_up(*base, *sc);
+  shared_ptr<ProjDataInfo> p;
+  if (d.mode == 2 || d.mode == 4)
+    {
+      const int nseg = d.mode == 4 ? c.span : 1;
+      if (c.vm % d.bvm != 0) throw std::runtime_error("harness: SSRB cannot un-mash views");
+      const int trim = base->get_num_tangential_poss() - nt;
+      if (trim < 0) throw std::runtime_error("harness: SSRB cannot add tangential positions");
+      int ntof = 1;
+      if (c.tm > 0)
+        {
+          if (c.tm % b.tm != 0) throw std::runtime_error("harness: SSRB cannot un-mash TOF bins");
+          ntof = c.tm / b.tm;
+        }
+      int max_in_seg = -1;
+      if (c.sr) max_in_seg = std::max(std::abs(c.smin), std::abs(c.smax)) * nseg + nseg / 2;
+      p.reset(SSRB(*base, nseg, c.vm / d.bvm, trim, max_in_seg, ntof));
+      if (c.sr && (p->get_min_segment_num() != c.smin || p->get_max_segment_num() != c.smax)) p->reduce_segment_range(c.smin, c.smax);
+      return p;
+    }
+  if (d.mode == 3) p = base;
+  else p.reset(base->clone());
+  if (views != p->get_num_views())
+    {
+      ProjDataInfoCylindrical* cyl = dynamic_cast<ProjDataInfoCylindrical*>(p.get());
+      if (!cyl) throw std::runtime_error("harness: view mashing of non-cylindrical data");
+      // as SSRB does (set_num_views is documented to leave the offset to the caller): the first view is centred on the views it combines
+      const float offset = cyl->get_azimuthal_angle_offset() + cyl->get_azimuthal_angle_sampling() * ((float)c.vm / (float)d.bvm - 1.F) / 2.F;
+      p->set_num_views(views);
+      cyl->set_azimuthal_angle_offset(offset);
+    }
+  if (nt != p->get_num_tangential_poss()) p->set_num_tangential_poss(nt);
+  if (c.sr) p->reduce_segment_range(c.smin, c.smax);
+  if (c.tm > 0 && c.tm != p->get_tof_mash_factor()) p->set_tof_mash_factor(c.tm);
+  return p;
+}
+
 static bool build_geo(Run& run, Geo& g)
 {
   vmc::Ctx& ctx = run.ctx;
@@ -133,6 +253,19 @@ static bool build_geo(Run& run, Geo& g)
     {
       ctx.count("rejected_configs");
       return false;
+    }
+  if (run.d.mode)
+    {
+      // derived configuration: g.pdi becomes the derived object, the freshly constructed one is kept for the derived_as_fresh clause
+      g.fresh = g.pdi;
+      g.pdi.reset();
+      if (small::throws([&] { g.pdi = make_derived(c, run.d, g.sc); }, &what) || !g.pdi)
+        {
+          ctx.count("rejected_configs");
+          ctx.count("derived_rejected_by_error_in_derivation");
+          ctx.observe("derivation refused: " + run.cs + " : " + what.substr(0, 160));
+          return false;
+        }
     }
   g.cyl = dynamic_cast<const ProjDataInfoCylindrical*>(g.pdi.get());
   g.na = dynamic_cast<const ProjDataInfoCylindricalNoArcCorr*>(g.pdi.get());
